@@ -6,6 +6,7 @@ import NavisModel.Proofs.CutFrontEndLemmas
 import NavisModel.Proofs.CutFragmentsLemmas
 import NavisModel.Gen.TreeEdit
 import NavisModel.Proofs.RerootGraphLemmas
+import NavisModel.Proofs.RerootNxLemmas
 import NavisModel.Proofs.RerootTreesLemmas
 import NavisModel.Proofs.TreeCheckLemmas
 /-!
@@ -269,6 +270,26 @@ theorem reroot_graph_in_place (t : Table) (hw : WF t) (len : Int → Int → Nat
     (rerootGraphIg (graphOf t len) (rootPath t r)).Perm (graphOf (reroot t r) len) :=
   rerootGraphIg_perm hw len hsym hf hp
 
+/-- **The networkx branch as the source spells it.**  Follow `successors` from the new root, remove each edge and
+record its weight, stop when there is no successor, add the inverted edges — with the skip test and the loop test
+*read from the current source* (`Gen.TreeEdit.nxWalkSpec`: identity tests against `None`, not truthiness, so the node
+id 0 does not end the walk) the edited graph is the graph of the rerooted node table: every forest, every target
+(current roots and absent ids: nothing happens), every symmetric edge length, node id 0 anywhere on the path. -/
+theorem reroot_graph_in_place_networkx (t : Table) (hw : WF t) (len : Int → Int → Nat) (hsym : ∀ a b, len a b = len b a) (r : Int) :
+    (rerootGraphNxAW Gen.TreeEdit.nxWalkSpec (graphOf t len) r).Perm (graphOf (reroot t r) len) := by
+  have h : Gen.TreeEdit.nxWalkSpec = refNxWalkSpec := by decide
+  rw [h]
+  exact rerootGraphNxAW_ref_perm hw len hsym r
+
+/-- … and the two back-ends edit the graph to literally the same edge list. -/
+theorem reroot_graph_backends_agree (t : Table) (hw : WF t) (len : Int → Int → Nat) (r : Int) (hr : r ∈ ids t) :
+    rerootGraphNx (graphOf t len) r = rerootGraphIg (graphOf t len) (rootPath t r) := rerootGraphNx_eq_ig hw len hr
+
+/-- The other facts of the networkx branch the model hard-wires: `next(g.successors(.), None)` and
+`(path[i + 1], path[i], {'weight': weights[i]}) for i in range(len(path) - 1)`. -/
+theorem reroot_networkx_source_facts :
+    Gen.TreeEdit.nxSuccessorDefaultsToNone = true ∧ Gen.TreeEdit.nxInvertedEdgesKeepTheirWeights = true := by decide
+
 /-- **Other fragments are untouched by a whole sequence of reroots**: a row whose tree contains none of the targets
 is in the result, unchanged. -/
 theorem reroot_sequence_other_trees_untouched (t : Table) (hw : WF t) (rs : List Int) (n : Node) (hn : n ∈ t)
@@ -526,6 +547,10 @@ example : (okNodes (pruneMethod refDistal nx2 [.id 25, .tag "ta"])).map ids = so
 -- prevent_fragments with a mask marking 90, 81 and 12: the connecting nodes are added
 example : ids (subsetNeuronPF nx2 (maskIds ex2 [false, false, false, false, true, false, false, false, true, false, true])).nodes =
     [55, 7, 90, 30, 66, 40, 81, 25, 12] := by decide
+-- zero-based chain 0 ← 1 ← 2, reroot to 2: the walk with identity tests inverts both edges; a truthiness test
+-- (`while parent:`) stops at the id 0 and leaves the edge 1 → 0 in place (two parents for 1 in the graph, edge lost in the table)
+example : rerootGraphNxAW refNxWalkSpec [(1, 0, 3), (2, 1, 4)] 2 = [(1, 2, 4), (0, 1, 3)] ∧
+    rerootGraphNxAW { refNxWalkSpec with loopIsNotNone := false } [(1, 0, 3), (2, 1, 4)] 2 = [(1, 0, 3), (1, 2, 4)] := by decide
 -- the in-place graph edit on ex2 (unit weights): the edges on the path 81 → … → 10 are inverted, the others kept
 example : rerootGraphIg (graphOf ex2 fun _ _ => 1) (rootPath ex2 81) =
     [(7, 55, 1), (90, 7, 1), (25, 30, 1), (12, 25, 1), (66, 81, 1), (55, 66, 1), (40, 55, 1), (30, 40, 1), (70, 30, 1), (10, 70, 1)] := by decide
